@@ -78,6 +78,9 @@ impl<F: Float, D: Distance<F>> NearestNeighbourIndex<F> for KdTreeIndex<'_, F, D
                 &|a, b| self.1.rdistance(aview1(a), aview1(b)),
             )?
             .into_iter()
+            // `kdtree` also returns the points lying exactly on the radius; the other indices
+            // (and the documentation of `within_range`) only keep the points strictly inside
+            .filter(|(d, _)| *d < range)
             .map(|(_, (pt, pos))| (pt.reborrow(), *pos))
             .collect())
     }
